@@ -30,11 +30,11 @@ FLOORS = {"quick": {"deliveries_checked": 30000, "held_back_by_predecessor": 300
 
 
 def plan(tier):
-    return {"shards": 4, "timeout": 600} if tier == "quick" else {"shards": 16, "timeout": 3000}
+    return {"shards": 4, "timeout": 600} if tier == "quick" else {"shards": 16, "timeout": 3400}
 
 
 def ncases(tier):
-    return 400 if tier == "quick" else 2500
+    return 400 if tier == "quick" else 5000
 
 
 def gen_case(rng, i):
